@@ -301,12 +301,15 @@ def r6_layout(ctx):
     ctx.rule("C09.R6", "estimate: one entry per requested individual, rows in the requested order (also for repeated ages)", 3)
     f = ctx.ix.func("leaspy.models.base", "BaseModel.estimate", "C09.R6")
     cfg = CFG(f.node)
+    from ..astq import Canon, unify
     loops = [l for l in ast.walk(f.node) if isinstance(l, ast.For) and U(l.iter) == "timepoints.items()"]
-    ok = len(loops) == 1 and any(isinstance(s, ast.Assign) and U(s.targets[0]) == f"estimations[{U(loops[0].target.elts[0])}]" for s in loops[0].body)
-    ctx.check(ok, "C09.R6", f, loops[0] if loops else f.node, "one estimation per requested individual, keyed by its identifier", "estimations are not produced per requested individual")
+    L = Canon(f.node).lines(True, True)
+    b1 = unify(L, ["for ($1.items(), (?id, ?t))", "?est[?id] = ..."])
+    ctx.check(b1 is not None, "C09.R6", f, loops[0] if loops else f.node, "one estimation per requested individual, keyed by its identifier", "estimations are not produced per requested individual",
+              construct="one estimation per individual")
+    b2 = unify(L, ["for ($1.items(), (?id, ?t))", "?est[?id] = $0.compute_individual_trajectory(?t, $2[?id])..."])
+    ctx.check(b2 is not None, "C09.R6", f, f.node, "each individual estimated with its own parameters at its own ages", "an individual is estimated with another's parameters / ages", construct="own parameters and ages")
     src = U(f.node)
-    ok = f"individual_parameters[{U(loops[0].target.elts[0])}]" in src and f"self.compute_individual_trajectory({U(loops[0].target.elts[1])}, ip)" in src if loops else False
-    ctx.check(ok, "C09.R6", f, f.node, "each individual estimated with its own parameters at its own ages", "an individual is estimated with another's parameters / ages", construct="own parameters and ages")
     joins = [(n, c) for n, st in cfg.stmt.items() if st is not None for c in header_walk(st) if isinstance(c, ast.Call) and isinstance(c.func, ast.Attribute) and c.func.attr == "join" and kwarg(c, "on") is not None]
     if not joins:
         ctx.violation("C09.R6", f, f.node, "the MultiIndex request is no longer joined back onto the requested index", construct="join on the requested index")
@@ -314,7 +317,7 @@ def r6_layout(ctx):
     for n, c in joins:
         rhs = U(c.args[0]) if c.args else ""
         dedup = [m for m, st in cfg.stmt.items() if isinstance(st, ast.Assign) and U(st.targets[0]) == rhs and "duplicated()" in U(st.value) and "~" in U(st.value) and cfg.dominates(m, n)]
-        reindexed = "index=ix" in src
+        reindexed = unify(L, ["?ix = $1", "?empty = pd.DataFrame([], index=?ix, ...)", "... = ?empty[[]].join(...)"]) is not None or unify(L, ["?ix = $1", "... = pd.DataFrame([], index=?ix, ...)[[]].join(...)"]) is not None
         ctx.check(bool(dedup) and reindexed, "C09.R6", f, c, "estimations de-duplicated before being joined onto the requested index (row count = request)",
                   f"`{rhs}` may hold a repeated (ID, TIME) entry when joined onto the requested index: a request with a repeated age returns more rows than requested (4 -> 6)")
 
